@@ -46,9 +46,10 @@ Get(f, k, d) == IF k \in DOMAIN f THEN f[k] ELSE d
 Put(f, k, v) == (k :> v) @@ f
 Now(e) == IF "now" \in DOMAIN e THEN e.now ELSE 0
 
-NoG == [st |-> "idle", key |-> 0, mode |-> "w", ask |-> 0, cancelled |-> FALSE, told |-> FALSE, alone |-> FALSE, wclean |-> FALSE]
+NoG == [st |-> "idle", key |-> 0, mode |-> "w", ask |-> 0, cancelled |-> FALSE, told |-> FALSE, alone |-> FALSE, wclean |-> FALSE, lockTold |-> FALSE]
 
 CReset(e) == [bad |-> FALSE, why |-> "", prim |-> e.prim, graceful |-> e.graceful,
+              real |-> IF "realtime" \in DOMAIN e THEN e.realtime ELSE FALSE,   \* outer-cancel run on the real clock (free-running)
               g |-> << >>,       \* goroutine -> NoG-shaped record; st: idle | calling | held | in | out | releasing
               q |-> << >>,       \* key -> sequence of sets of goroutines (arrival groups, oldest first)
               del |-> << >>,     \* key -> "" | "deleteunlock" | "deleterunlock" (the last delete-and-release)
@@ -56,6 +57,11 @@ CReset(e) == [bad |-> FALSE, why |-> "", prim |-> e.prim, graceful |-> e.gracefu
 
 Fifo(c) == c.prim \in {"fifomutex", "fifomap"}
 Outer(c) == c.prim = "outercancel" /\ ~c.shut
+(* the laws that need the virtual clock of a synctest bubble (timers fire at their deadline, nothing takes time) *)
+Virtual(c) == Outer(c) /\ ~c.real
+(* told to stop BY THE LOCK: for outer-cancel a context that ended with the parent's cause does not count - the   *)
+(* lock has done its part once it cancelled with the configured cause, or let a full grace period pass (lockTold) *)
+StopTold(c, x) == IF c.prim = "outercancel" THEN x.lockTold ELSE x.told
 After(c, k) == LET d == Get(c.del, k, "") IN IF d = "" THEN "" ELSE "-after-" \o d
 Holding(c, h) == c.g[h].st \in {"held", "in", "out"}
 Gs(c) == DOMAIN c.g
@@ -77,7 +83,7 @@ CAcqCall(c, e) ==
            nowriter == \A h \in Gs(c) \ {e.g} : c.g[h].mode # "w" \/ c.g[h].st = "idle"
        IN [c EXCEPT !.g = Put(others, e.g, [st |-> "calling", key |-> e.key, mode |-> e.mode, ask |-> Now(e),
                                             cancelled |-> e.pre, told |-> FALSE, alone |-> quiet,
-                                            wclean |-> e.mode = "w" /\ nowriter]),
+                                            wclean |-> e.mode = "w" /\ nowriter, lockTold |-> FALSE]),
                     !.lastk = e.key]
 
 CArrive(c, e) ==
@@ -99,16 +105,21 @@ CAcqRet(c, e) ==
        THEN Bad("outer-reader-admitted-while-writer-holds")
   ELSE IF Outer(c) /\ r.mode = "w" /\ \E h \in liveR : ~c.g[h].told
        THEN Bad("outer-writer-granted-before-reader-released-or-cancelled")
-  ELSE IF Outer(c) /\ r.mode = "w" /\ r.wclean /\ Now(e) > r.ask + c.graceful
+  ELSE IF Outer(c) /\ r.mode = "w" /\ Now(e) < r.ask + c.graceful /\ \E h \in liveR : ~c.g[h].lockTold
+       THEN Bad("outer-writer-granted-before-grace-with-a-reader-still-holding")   \* e.g. a reader whose PARENT context ended
+  ELSE IF Virtual(c) /\ r.mode = "w" /\ r.wclean /\ Now(e) > r.ask + c.graceful
        THEN Bad("outer-writer-not-granted-after-grace")
-  ELSE IF Outer(c) /\ r.mode = "w" /\ r.alone /\ Now(e) > r.ask
+  ELSE IF Virtual(c) /\ r.mode = "w" /\ r.alone /\ Now(e) > r.ask
        THEN Bad("outer-writer-delayed-with-nothing-held")    \* an errored or released acquisition still holds something
-  ELSE [c EXCEPT !.g[e.g].st = "held", !.q = Unqueue(c, k, e.g)]
+  ELSE LET g1 == IF Outer(c) /\ r.mode = "w"      \* the lock has had its grace period with every reader still around
+                 THEN [h \in Gs(c) |-> IF h \in liveR THEN [c.g[h] EXCEPT !.lockTold = TRUE] ELSE c.g[h]]
+                 ELSE c.g
+       IN [c EXCEPT !.g = [g1 EXCEPT ![e.g].st = "held"], !.q = Unqueue(c, k, e.g)]
 
 CEnter(c, e) ==
   LET r == Get(c.g, e.g, NoG)
       others == {h \in Gs(c) \ {e.g} : c.g[h].st = "in" /\ c.g[h].key = r.key}
-      excused(h) == (c.g[h].mode = "r" /\ c.g[h].told) \/ (r.mode = "r" /\ r.told)
+      excused(h) == (c.g[h].mode = "r" /\ StopTold(c, c.g[h])) \/ (r.mode = "r" /\ StopTold(c, r))
   IN
   IF r.st # "held" THEN Bad("harness-enter-without-grant")
   ELSE IF c.prim = "outercancel" /\ c.shut THEN [c EXCEPT !.g[e.g].st = "in"]
@@ -134,9 +145,9 @@ CTold(c, e) ==
       ws == {h \in Gs(c) : c.g[h].mode = "w" /\ c.g[h].st = "calling"}
   IN
   IF r.told \/ r.mode # "r" THEN c
-  ELSE IF r.st \in {"releasing", "idle"} \/ r.cancelled \/ c.shut THEN [c EXCEPT !.g[e.g].told = TRUE]
+  ELSE IF r.st \in {"releasing", "idle"} \/ r.cancelled \/ c.shut THEN [c EXCEPT !.g[e.g].told = TRUE, !.g[e.g].lockTold = (e.cause = "configured")]
   ELSE IF \E h \in ws : e.now >= c.g[h].ask + c.graceful
-       THEN IF e.cause = "configured" THEN [c EXCEPT !.g[e.g].told = TRUE]
+       THEN IF e.cause = "configured" THEN [c EXCEPT !.g[e.g].told = TRUE, !.g[e.g].lockTold = (e.cause = "configured")]
             ELSE Bad("outer-reader-cancelled-for-a-writer-with-another-cause")
   ELSE IF ws # {} THEN Bad("outer-reader-cancelled-before-grace-since-writer-asked")
   ELSE Bad("outer-reader-cancelled-for-no-allowed-reason")
@@ -146,7 +157,7 @@ CTold(c, e) ==
 (* to stop, and the writer is granted                                                                            *)
 CAdv(c, e) ==
   LET late == {h \in Gs(c) : c.g[h].mode = "w" /\ c.g[h].st = "calling" /\ c.g[h].wclean /\ e.now > c.g[h].ask + c.graceful}
-  IN IF ~Outer(c) \/ late = {} THEN c
+  IN IF ~Virtual(c) \/ late = {} THEN c
      ELSE IF \E h \in Gs(c) : c.g[h].mode = "r" /\ Holding(c, h) /\ ~c.g[h].told
           THEN Bad("outer-reader-not-told-to-stop-after-grace")
           ELSE Bad("outer-writer-not-granted-after-grace")
